@@ -125,6 +125,8 @@ func (m *pathParamMatcher) Matches(request *heimdall.Request, keys, values []str
 				return errorchain.NewWithMessage(ErrRequestPathMismatch,
 					"request path contains encoded slashes which are not allowed")
 			}
+
+			value, _ = url.PathUnescape(value)
 		case config.EncodedSlashesOn:
 			value, _ = url.PathUnescape(value)
 		default:
